@@ -40,6 +40,21 @@ def analyse(C, entry, path):
                 ctx.angle.add(v); ctx.cons.append("(<= (* n%d n%d) %s)" % (v, v, smt.rat(epsv))); ctx.cons.append("(not (= n%d 0))" % v)
                 matched = True; break
         if matched: continue
+        # squared atan2 atom (SE2/SO2: theta = atan2(im, re))
+        for at, v in C.atan.items():
+            if v is None or Nq == 0: continue
+            ratio = Nq.LC / (g[at] ** 2).LC
+            if C.red(Nq - ratio * g[at] ** 2) == 0 and ratio > 0:
+                cst = Fraction(int(ratio.numerator), int(ratio.denominator))
+                ctx.angle.add(at); ctx.cons.append("(<= (* %s n%d n%d) %s)" % (smt.rat(cst), at, at, smt.rat(epsv))); ctx.cons.append("(not (= n%d 0))" % at)
+                y, x, r = v
+                for pp in (y[0], y[1], x[0], x[1], r[0], r[1]):
+                    for a_ in support(C, pp): ctx.angle.add(a_)
+                ctx.atan_angle = getattr(ctx, 'atan_angle', []) + [at]
+                for gg, src in zip(C.G, C.Gsrc):
+                    if src[0] == 'hyp' and support(C, gg) <= ctx.angle: ctx.cons.append("(= %s 0)" % C.poly_smt(gg))
+                matched = True; break
+        if matched: continue
         for i, inside in inside_of.items():
             for k, form in ((2, inside), (3, g[i] * inside), (4, inside * inside)):
                 cst = None
@@ -145,8 +160,17 @@ def enclosures(C, ctx):
         L.append("(=> (and (<= (- 1) %s) (<= %s 0)) (and (<= %s %s) (<= %s %s)))" % (a, a, shi, s_, s_, slo))
         L.append("(=> (and (<= (- 1) %s) (<= %s 1)) (and (<= %s %s) (<= %s %s)))" % (a, a, clo, c_, c_, chi))
         L.append("(= (+ (* %s %s) (* %s %s)) 1)" % (s_, s_, c_, c_))
+    for at in getattr(ctx, 'atan_angle', []):
+        y, x, r = C.atan[at]
+        a = 'n%d' % at; s_ = C.rat_smt(C.divv(y, r)); c_ = C.rat_smt(C.divv(x, r))
+        def pw(k): return "(* %s)" % ' '.join([a] * k)
+        slo = "(+ %s (- (/ %s 6)) (/ %s 120) (- (/ %s 5040)))" % (a, pw(3), pw(5), pw(7)); shi = "(+ %s (- (/ %s 6)) (/ %s 120))" % (a, pw(3), pw(5))
+        clo = "(+ 1 (- (/ %s 2)) (/ %s 24) (- (/ %s 720)))" % (pw(2), pw(4), pw(6)); chi = "(+ 1 (- (/ %s 2)) (/ %s 24))" % (pw(2), pw(4))
+        L.append("(=> (and (<= 0 %s) (<= %s 1)) (and (<= %s %s) (<= %s %s)))" % (a, a, slo, s_, s_, shi))
+        L.append("(=> (and (<= (- 1) %s) (<= %s 0)) (and (<= %s %s) (<= %s %s)))" % (a, a, shi, s_, s_, slo))
+        L.append("(=> (and (<= (- 1) %s) (<= %s 1)) (and (<= %s %s) (<= %s %s)))" % (a, a, clo, c_, c_, chi))
     for at, v in C.atan.items():
-        if v is None: continue
+        if v is None or at in getattr(ctx, 'atan_angle', []): continue
         y, x, r = v
         if not (support(C, y[0]) | support(C, y[1]) | support(C, x[0]) | support(C, x[1])) <= ctx.angle: continue
         ys, xs = C.rat_smt(y), C.rat_smt(x); al = 'n%d' % at
